@@ -407,6 +407,15 @@ def check_refusals(kem, acc):
     pub = rk.public_key()
     expect_refused("psk-without-id", receiver_key=pub, aead_id=A, psk=(b"", PSK))
     expect_refused("psk-id-without-psk", receiver_key=pub, aead_id=A, psk=(PSK_ID, b""))
+    # the complete PSK matrix of RFC 9180 5.1 (VerifyPSKInputs): every malformed pair, with and without a sender key,
+    # on the sending and on the receiving side
+    for lbl, pair in (("psk-both-empty", (b"", b"")), ("psk-without-id", (b"", PSK)), ("psk-id-without-psk", (PSK_ID, b"")),
+                      ("psk-shorter-than-32", (PSK_ID, PSK[:31]))):
+        for auth in (False, True):
+            expect_refused("%s/%s/sender" % (lbl, "auth" if auth else "noauth"), receiver_key=pub, aead_id=A, psk=pair,
+                           **({"sender_key": sk} if auth else {}))
+            expect_refused("%s/%s/receiver" % (lbl, "auth" if auth else "noauth"), receiver_key=rk, aead_id=A, psk=pair, enc=sc.enc,
+                           **({"sender_key": sk.public_key()} if auth else {}))
     expect_refused("two-private-keys", receiver_key=rk, aead_id=A, sender_key=sk, enc=sc.enc)
     expect_refused("no-private-key-with-sender", receiver_key=pub, aead_id=A, sender_key=sk.public_key())
     expect_refused("curve-mismatch", receiver_key=pub, aead_id=A, sender_key=ok_other)
